@@ -154,6 +154,7 @@ type barrier struct {
 	kick     chan struct{}
 	stop     chan struct{}
 	wg       sync.WaitGroup
+	stopped  bool
 	rounds   int
 	multi    int // rounds that released two or more answers together
 }
@@ -167,10 +168,16 @@ func newBarrier(expected int) *barrier {
 
 func (b *barrier) arrive(reply func()) {
 	b.mu.Lock()
+	if b.stopped {
+		// the scenario is over (a request written by an execution that was cancelled meanwhile): answer at once
+		b.mu.Unlock()
+		reply()
+		return
+	}
 	g := b.gate
 	b.held++
+	b.wg.Add(1) // under the lock: never concurrently with the Wait that follows the stop
 	b.mu.Unlock()
-	b.wg.Add(1)
 	go func() {
 		defer b.wg.Done()
 		<-g
@@ -182,8 +189,13 @@ func (b *barrier) arrive(reply func()) {
 	}
 }
 
-func (b *barrier) release() {
+func (b *barrier) release() { b.releaseAnd(false) }
+
+func (b *barrier) releaseAnd(stop bool) {
 	b.mu.Lock()
+	if stop {
+		b.stopped = true
+	}
 	if b.held == 0 {
 		b.mu.Unlock()
 		return
@@ -208,7 +220,7 @@ func (b *barrier) loop(quiet time.Duration, done chan struct{}) {
 	for {
 		select {
 		case <-b.stop:
-			b.release()
+			b.releaseAnd(true)
 			return
 		case <-b.kick:
 			b.mu.Lock()
@@ -261,6 +273,7 @@ func runSpecRetry(c specrScn, r *vh.Rng) string {
 	var wg sync.WaitGroup
 	var pmu sync.Mutex
 	perHost := map[string]int{}
+	over := false // the scenario is being wound up (guarded by pmu)
 	pauses := make([]time.Duration, 64)
 	for i := range pauses {
 		pauses[i] = time.Duration(r.Intn(1500)) * time.Microsecond
@@ -295,7 +308,16 @@ func runSpecRetry(c specrScn, r *vh.Rng) string {
 			case "i":
 				reply()
 			default:
-				wg.Add(1)
+				pmu.Lock()
+				late := over
+				if !late {
+					wg.Add(1) // under the lock: never concurrently with the Wait at the end of the scenario
+				}
+				pmu.Unlock()
+				if late {
+					reply() // a request written by an execution that was cancelled meanwhile
+					return
+				}
 				go func() {
 					defer wg.Done()
 					time.Sleep(pauses[k%len(pauses)])
@@ -353,6 +375,9 @@ func runSpecRetry(c specrScn, r *vh.Rng) string {
 		<-barDone
 		bar.wg.Wait()
 	}
+	pmu.Lock()
+	over = true
+	pmu.Unlock()
 	wg.Wait()
 	if !quiescent {
 		atomic.AddInt64(&hung, 1)
